@@ -72,7 +72,7 @@ func main() {
 			h := sha1.Sum([]byte(key))
 			key = hex.EncodeToString(h[:10])
 		}
-		why := strings.NewReplacer("\t", " ", "\n", " ", "\r", " ").Replace(c.Why)
+		why := strings.ToValidUTF8(strings.NewReplacer("\t", " ", "\n", " ", "\r", " ").Replace(c.Why), "?") // (messages may quote paths cut inside a multi-byte character)
 		if why == "" {
 			why = "-"
 		}
